@@ -237,7 +237,7 @@ def run_cli(cmd, text, opt):
 def run_subprocess(cmd, text, opt):
     env = dict(os.environ, PYTHONPATH=vlib.REPO, PYTHONHASHSEED="0")
     r = subprocess.run([sys.executable, MAIN_PATH, cmd, text] + (["-o"] if opt else []), capture_output=True, text=True,
-                       env=env, timeout=120, check=False)
+                       env=env, timeout=900, check=False)
     return {"stdout": r.stdout, "stderr": r.stderr, "exit": r.returncode}
 
 
